@@ -1,9 +1,11 @@
 import NurbsVerif.Lemmas.EvalSpec
+import NurbsVerif.Lemmas.Grid
 
 /-!
 # C01  Evaluated points equal the B-spline / NURBS definition
 
-The model functions (`Geomdl.curvePointAt`, `surfacePointAt`, `project`, `linspaceCore`) are the ones
+The model functions (`Geomdl.curvePointAt`, `surfacePointAt`, `project`, `linspaceCore`, `curveGrid`,
+`surfaceGrid`, `volumeGrid`, `curveDers`) are the ones
 the correspondence check runs against `Curve/Surface/Volume.evaluate_single / evaluate_list / evalpts /
 derivatives(order=0)`.  `cdb` is the Cox–de Boor recursion (The NURBS Book Eq. 2.5, 0/0 := 0).
 -/
@@ -76,6 +78,70 @@ theorem sample_params_spec (a b : K) (n : ℕ) (hn : 2 ≤ n) (hab : a < b) :
     ∀ i j, i < j → j < n → (linspaceCore a b n).getD i 0 < (linspaceCore a b n).getD j 0 :=
   ⟨linspaceCore_length a b n, linspaceCore_first a b n (by omega), linspaceCore_last a b n hn,
    fun i j hij hj => linspaceCore_strictMono a b n i j hab hij hj⟩
+
+
+/-! ### entry points: parameter list, sampled grid, zeroth derivative -/
+
+/-- **Parameter list / curve grid**: `evaluate_list(params)` (and the sampled curve grid, which is
+    `evaluate_list(linspace …)`) returns, at position `i`, exactly the point `evaluate_single` returns
+    for the `i`-th parameter; the list has one point per parameter. -/
+theorem curve_list_eq_single (rat : Bool) (p : ℕ) (U : ℕ → K) (P : List (List K)) (ks : List K) (i : ℕ)
+    (hi : i < ks.length) :
+    (curveGrid rat p U P ks).length = ks.length ∧
+    (curveGrid rat p U P ks).getD i [] = projIf rat (curvePoint p U P (ks.getD i 0)) :=
+  ⟨curveGrid_length rat p U P ks, curveGrid_getD rat p U P ks i hi⟩
+
+/-- **Surface grid: size and ordering.**  The sampled grid has `|us| · |vs|` points and the point with
+    flat index `i · |vs| + j` (u slowest, v fastest) is the surface point at `(us[i], vs[j])`. -/
+theorem surface_grid_index (rat : Bool) (pu pv : ℕ) (Uu Uv : ℕ → K) (su sv : ℕ) (P : List (List K))
+    (kus kvs : List K) (i j : ℕ) (hi : i < kus.length) (hj : j < kvs.length) :
+    (surfaceGrid rat pu pv Uu Uv su sv P kus kvs).length = kus.length * kvs.length ∧
+    (surfaceGrid rat pu pv Uu Uv su sv P kus kvs).getD (i * kvs.length + j) []
+      = projIf rat (surfacePoint pu pv Uu Uv su sv P (kus.getD i 0) (kvs.getD j 0)) :=
+  ⟨surfaceGrid_length rat pu pv Uu Uv su sv P kus kvs, surfaceGrid_getD rat pu pv Uu Uv su sv P kus kvs i j hi hj⟩
+
+/-- **Volume grid: size and ordering** (u slowest, then v, w fastest). -/
+theorem volume_grid_index (rat : Bool) (pu pv pw : ℕ) (Uu Uv Uw : ℕ → K) (su sv sw : ℕ) (P : List (List K))
+    (kus kvs kws : List K) (i j k : ℕ) (hi : i < kus.length) (hj : j < kvs.length) (hk : k < kws.length) :
+    (volumeGrid rat pu pv pw Uu Uv Uw su sv sw P kus kvs kws).length = kus.length * (kvs.length * kws.length) ∧
+    (volumeGrid rat pu pv pw Uu Uv Uw su sv sw P kus kvs kws).getD (i * (kvs.length * kws.length) + (j * kws.length + k)) []
+      = projIf rat (volumePoint pu pv pw Uu Uv Uw su sv sw P (kus.getD i 0) (kvs.getD j 0) (kws.getD k 0)) :=
+  ⟨volumeGrid_length rat pu pv pw Uu Uv Uw su sv sw P kus kvs kws,
+   volumeGrid_getD rat pu pv pw Uu Uv Uw su sv sw P kus kvs kws i j k hi hj hk⟩
+
+/-- **The sampled surface grid starts and ends exactly on the domain corners**: with the `linspace`
+    parameter lists of `n_u ≥ 2`, `n_v ≥ 2` samples, the first grid point is the surface point at
+    `(start_u, start_v)` and the last one (index `n_u · n_v − 1`) the point at `(stop_u, stop_v)`. -/
+theorem surface_grid_corners (rat : Bool) (pu pv : ℕ) (Uu Uv : ℕ → K) (su sv : ℕ) (P : List (List K))
+    (a b c d : K) (nu nv : ℕ) (hnu : 2 ≤ nu) (hnv : 2 ≤ nv) :
+    (surfaceGrid rat pu pv Uu Uv su sv P (linspaceCore a b nu) (linspaceCore c d nv)).getD 0 []
+      = projIf rat (surfacePoint pu pv Uu Uv su sv P a c) ∧
+    (surfaceGrid rat pu pv Uu Uv su sv P (linspaceCore a b nu) (linspaceCore c d nv)).getD (nu * nv - 1) []
+      = projIf rat (surfacePoint pu pv Uu Uv su sv P b d) := by
+  have lu := linspaceCore_length a b nu
+  have lv := linspaceCore_length c d nv
+  constructor
+  · have h := surfaceGrid_getD rat pu pv Uu Uv su sv P (linspaceCore a b nu) (linspaceCore c d nv) 0 0
+      (by omega) (by omega)
+    rw [linspaceCore_first a b nu (by omega), linspaceCore_first c d nv (by omega)] at h
+    simpa using h
+  · have h := surfaceGrid_getD rat pu pv Uu Uv su sv P (linspaceCore a b nu) (linspaceCore c d nv) (nu - 1) (nv - 1)
+      (by omega) (by omega)
+    rw [linspaceCore_last a b nu hnu, linspaceCore_last c d nv hnv, lv] at h
+    have e : (nu - 1) * nv + (nv - 1) = nu * nv - 1 := by
+      obtain ⟨m, rfl⟩ : ∃ m, nu = m + 1 := ⟨nu - 1, by omega⟩
+      obtain ⟨k, rfl⟩ : ∃ k, nv = k + 1 := ⟨nv - 1, by omega⟩
+      simp only [Nat.add_sub_cancel]
+      have : (m + 1) * (k + 1) = m * (k + 1) + k + 1 := by ring
+      omega
+    rw [e] at h
+    exact h
+
+/-- **Zeroth derivative**: entry 0 of `derivatives(u, order)` (A3.3/A3.4 model, any requested order)
+    is the point `evaluate_single(u)` returns – same span search, same basis functions. -/
+theorem curve_ders0_eq_single (p : ℕ) (U : ℕ → K) (P : List (List K)) (u : K) (order : ℕ) :
+    (curveDers p U P u order).getD 0 [] = curvePoint p U P u :=
+  curveDers_head p U P u order (findSpanLinear_ge p U P.length u)
 
 /-- non-vacuity: a quadratic Bézier segment in the plane at u = 1/2 -/
 example : NetOk 2 ([[0,0],[1,2],[2,0]] : List (List ℚ)) := by
